@@ -11,8 +11,13 @@ Obs == [exc |-> last.exc, res |-> last.res, c |-> last.c,
                                inl |-> IF st[w].t = "obj" THEN 1 ELSE 0]],
         blk |-> Cardinality({b \in Blocks : heap[b].used}),
         bad |-> bad]
+\* edges are buffered in TLC register 3 and written in batches to files IOEnv.EDGES.<k> (k in register 4); -workers 1
 EdgeLog ==
   LET rec == [s |-> Key(View), t |-> Key(View'), fam |-> fam, op |-> last'.op, obs |-> Obs']
-  IN Serialize(ToJson(rec) \o "\n", IOEnv.EDGES,
-        [format |-> "TXT", charset |-> "UTF-8", openOptions |-> <<"WRITE", "CREATE", "APPEND">>]).exitValue = 0
+      buf == Append(TLCGet(3), rec)
+  IN IF Len(buf) >= 1000 THEN ndJsonSerialize(IOEnv.EDGES \o "." \o ToString(TLCGet(4)), buf) /\ TLCSet(3, <<>>) /\ TLCSet(4, TLCGet(4) + 1)
+     ELSE TLCSet(3, buf)
+InitMC == Init /\ TLCSet(3, <<>>) /\ TLCSet(4, 0)
+SpecMC == InitMC /\ [][Next]_vars
+Flush == ndJsonSerialize(IOEnv.EDGES \o "." \o ToString(TLCGet(4)), TLCGet(3))
 =============================================================================
